@@ -30,10 +30,10 @@ Proof. intros. unfold evrange, zseq. rewrite !map_length, seq_length. reflexivit
 
 (* ------------------------------------------------------------------ one chunk *)
 Lemma collect_tags : forall f evs, avail f P = true ->
-  collect (fun x => particle_tags (snd x)) (spec_events f evs) = inr (map (particle_tags_of f) evs).
+  collect (fun x => particle_tags (fst (snd x))) (spec_events f evs) = inr (map (particle_tags_of f) evs).
 Proof.
   intros f evs Ha. induction evs as [|e r IH]; simpl; auto.
-  rewrite IH. unfold particle_tags, read_obs. rewrite get_per_map. rewrite Ha. reflexivity.
+  rewrite IH. unfold particle_tags, read_all_obs, read_obs. cbn [fst snd]. rewrite get_per_map. rewrite Ha. reflexivity.
 Qed.
 
 Definition fcs (done : list wstate) (cur : Z) (nrest : nat) : list Z := 0 :: map tv done ++ cur :: repeat 0 nrest.
@@ -125,13 +125,13 @@ Proof.
     replace (done ++ f :: f' :: rest') with ((done ++ [f]) ++ f' :: rest') by (rewrite <- app_assoc; reflexivity).
     rewrite nth_error_app2 by lia. rewrite Nat.sub_diag. reflexivity. }
   rewrite Hnth.
-  assert (Hn' : 1 <= n_events f') by (destruct Hok' as [[_ [_ [_ Hn]]] _]; exact Hn).
+  assert (Hn' : 1 <= n_events f') by (destruct Hok' as [[_ [_ [_ [_ Hn]]]] _]; exact Hn).
   destruct (go_chunk f' 0 Hok' ltac:(lia)) as [Hs [Hlt Hle]].
   change (0 + k) with k in *.
   set (stop := if n_events f' <? k then n_events f' else k) in *.
   rewrite Hs. rewrite collect_tags by apply Hok'.
   eexists. exists stop. split; [reflexivity|]. split; [lia|].
-  assert (Hn : 1 <= n_events f) by (destruct Hok as [[_ [_ [_ Hn]]] _]; exact Hn).
+  assert (Hn : 1 <= n_events f) by (destruct Hok as [[_ [_ [_ [_ Hn]]]] _]; exact Hn).
   constructor; simpl; auto; try lia.
   - rewrite zlen_app. unfold zlen. simpl. lia.
   - unfold stop in *. destruct (n_events f' <? k) eqn:E; [apply Z.ltb_lt in E | apply Z.ltb_ge in E]; split; lia.
@@ -209,7 +209,7 @@ Proof.
   induction fuel as [|fuel IH]; intros g done f rest p q Hf Hall G Hfuel; [lia|].
   assert (Hok : gen_ok f).
   { rewrite Forall_forall in Hall. apply Hall. rewrite Hf. apply in_or_app. right. left. reflexivity. }
-  assert (Hn : 1 <= n_events f) by (destruct Hok as [[_ [_ [_ Hn]]] _]; exact Hn).
+  assert (Hn : 1 <= n_events f) by (destruct Hok as [[_ [_ [_ [_ Hn]]]] _]; exact Hn).
   pose proof (gi_pq _ _ _ _ _ _ G) as [Hp0 [Hpq Hqn]].
   simpl.
   (* the step performed by g_create, in each situation *)
@@ -245,7 +245,7 @@ Proof.
         unfold file_items. rewrite evrange_nil by lia. reflexivity.
       * assert (Hok' : gen_ok f').
         { rewrite Forall_forall in Hall. apply Hall. rewrite Hf. apply in_or_app. right. right. left. reflexivity. }
-        assert (Hn' : 1 <= n_events f') by (destruct Hok' as [[_ [_ [_ Hn']]] _]; exact Hn').
+        assert (Hn' : 1 <= n_events f') by (destruct Hok' as [[_ [_ [_ [_ Hn']]]] _]; exact Hn').
         destruct (g_load_next g done f f' rest' Hf Hok Hok' G) as [g1 [q' [Hl [Hq' G1]]]].
         assert (Hf' : files = (done ++ [f]) ++ f' :: rest') by (rewrite <- app_assoc; exact Hf).
         destruct (g_create_after_load g g1 (done ++ [f]) f' rest' 0 q' Hnil Hl G1 Hq') as [g' [Hc G']]. rewrite Hc.
@@ -262,7 +262,7 @@ End Gen.
 
 (* ------------------------------------------------------------------ the whole generator *)
 Lemma gen_ok_n : forall f, gen_ok f -> 1 <= n_events f.
-Proof. intros f [[_ [_ [_ Hn]]] _]. exact Hn. Qed.
+Proof. intros f [[_ [_ [_ [_ Hn]]]] _]. exact Hn. Qed.
 
 Lemma all_items_length : forall fs B, Forall gen_ok fs ->
   length (all_items B fs) = Z.to_nat (fold_right Z.add 0 (map n_events fs)).
@@ -349,7 +349,7 @@ Lemma run_gen_ok : forall o d hd ops, records_particles o = true ->
   1 <= n_events (run o d hd ops) -> get (rowsOf (run o d hd ops)) P <> [] -> gen_ok (run o d hd ops).
 Proof.
   intros o d hd ops Hrp Hn Hr. pose proof (run_readable o d hd ops Hrp Hn) as R. split; [exact R|].
-  destruct R as [_ [HP _]]. unfold avail. unfold ex in HP. rewrite HP. cbn [andb].
+  destruct R as [_ [_ [HP _]]]. unfold avail. unfold ex in HP. rewrite HP. cbn [andb].
   destruct (get (rowsOf (run o d hd ops)) P); [congruence | reflexivity].
 Qed.
 
